@@ -82,14 +82,12 @@ Section Dirs.
     destruct (app_facts la a Hla Ha) as [def [-> [_ [_ Hr]]]].
     destruct (dd_repeatable def); [reflexivity|]. apply Nat.leb_le. apply Hr. reflexivity.
   Qed.
-  (** values, for applications that name no argument twice *)
-  Lemma sound_directive_args : ok_app_arg_unique doc = true -> ok_directive_args doc = true.
+  (** values: every occurrence of every argument *)
+  Lemma sound_directive_args : ok_directive_args doc = true.
   Proof.
-    intros Hu. unfold ok_directive_args, ok_directive_args_gen. apply forallb_forall. intros la Hla. apply forallb_forall. intros a Ha.
+    unfold ok_directive_args, ok_directive_args_gen. apply forallb_forall. intros la Hla. apply forallb_forall. intros a Ha.
     destruct (app_facts la a Hla Ha) as [def [L [_ [Hc _]]]]. rewrite L.
-    apply check_arguments_sound with (ppos := dir_pos a) (pname := iname (dir_name a)) (kind := s "directive"); [exact Hchk| | |exact Hc].
-    - apply directive_args_nodup. apply lookup_d_In in L. tauto.
-    - unfold ok_app_arg_unique in Hu. rewrite forallb_forall in Hu. specialize (Hu la Hla). rewrite forallb_forall in Hu.
-      apply nodup_str_NoDup. apply Hu. exact Ha.
+    apply check_arguments_sound with (ppos := dir_pos a) (pname := iname (dir_name a)) (kind := s "directive"); [exact Hchk| |exact Hc].
+    apply directive_args_nodup. apply lookup_d_In in L. tauto.
   Qed.
 End Dirs.
